@@ -168,7 +168,28 @@ def check_len(res, facts):
                 rule.bad(key, "only argument(s) %s are truncated to the common length: the other is used at full length (index misalignment / out-of-bounds zip)" % sorted(sliced), fn.loc)
 
 
+def _flush_body(fn):
+    """(kernel call blocks, flows-into-result?, clears-buffer?) of a function that folds the buffer into self.result"""
+    ks = [(bb, t) for bb, t in fn.calls() if t["f"].get("name") in KERNELS]
+    dep = DF.Dep(fn)
+    flows = True
+    for bb, t in ks:
+        dl = place_parts(t["d"])[0]
+        f_ = False
+        for b2, t2 in fn.calls():
+            if t2["f"].get("name") in ("add_assign", "add") and t2["args"]:
+                if any(op_local(a) is not None and dl in dep.slice([op_local(a)]) for a in t2["args"][1:]):
+                    r0 = root_key(fn, t2["args"][0])
+                    if r0 and "result" in (r0[1] or ()):
+                        f_ = True
+        flows &= f_
+    clears = any(t["f"].get("name") == "clear" for _, t in fn.calls())
+    return ks, flows, clears
+
+
 def check_flush(res, facts):
+    """Pippenger accumulators: `add` folds an msm of the buffer into `result` (and clears the buffer) when the buffer is
+    full, `finalize` folds the rest when it is non-empty.  The fold may be written in place or in a helper method."""
     rule = res.rule("R-FLUSH", "Pippenger accumulators fold an msm of the buffer into `result` on the full-buffer arm and on finalize's non-empty arm", 4)
     for fn in facts.fns(unit="ws", crate="ark_ec"):
         if fn.kind == "Closure" or not fn.self_head or "stream_pippenger" not in fn.self_head:
@@ -176,88 +197,104 @@ def check_flush(res, facts):
         if fn.name not in ("add", "finalize"):
             continue
         key = "ark_ec|%s::%s" % (fn.self_head.rsplit("::", 1)[-1], fn.name)
-        ks = [(bb, t) for bb, t in fn.calls() if t["f"].get("name") in KERNELS]
-        if not ks:
-            rule.bad(key, "no msm kernel call: buffered pairs are never folded into the result", fn.loc)
-            continue
-        dep = DF.Dep(fn)
         cd = DF.control_deps(fn)
-        ok = True
-        why = []
+        sites = []          # (guarding block in fn, flows, clears)
+        ks, flows, clears = _flush_body(fn)
         for bb, t in ks:
-            # the msm result must flow into self.result (local 1's pointee / field result)
-            dl = place_parts(t["d"])[0]
-            flows = False
-            for b2, t2 in fn.calls():
-                if t2["f"].get("name") in ("add_assign", "add") and t2["args"]:
-                    if any(op_local(a) is not None and dl in dep.slice([op_local(a)]) for a in t2["args"][1:]):
-                        r0 = root_key(fn, t2["args"][0])
-                        if r0 and "result" in (r0[1] or ()):
-                            flows = True
-            if not flows:
-                ok = False
+            sites.append((bb, flows, clears))
+        for bb, t, callee in DF.local_callees(facts, fn):
+            if callee.self_head != fn.self_head:
+                continue
+            ks2, flows2, clears2 = _flush_body(callee)
+            if ks2:
+                sites.append((bb, flows2, clears2))
+        if not sites:
+            rule.bad(key, "no msm kernel call (directly or through a helper of the same type): buffered pairs are never folded into the result", fn.loc)
+            continue
+        why = []
+        for bb, fl, cl in sites:
+            if not fl:
                 why.append("msm result is not added to self.result")
             if not cd.get(bb):
-                ok = False
-                why.append("msm call is not guarded by the buffer-state test")
-        if fn.name == "add":
-            clears = [t["f"]["name"] for _, t in fn.calls() if t["f"].get("name") == "clear"]
-            if not clears:
-                ok = False
+                why.append("the fold is not guarded by the buffer-state test")
+            if fn.name == "add" and not (cl or any(t["f"].get("name") == "clear" for _, t in fn.calls())):
                 why.append("buffer is not cleared after the flush (pairs would be counted twice)")
-        if ok:
-            rule.ok(key, "guarded msm folded into result", fn.loc)
-        else:
-            rule.bad(key, "; ".join(sorted(set(why))), fn.loc)
+        (rule.bad if why else rule.ok)(key, "; ".join(sorted(set(why))) if why else "guarded msm folded into result", fn.loc)
 
 
 def check_window(res, facts):
-    rule = res.rule("R-WINDOW", "window recombination doubles exactly c times between windows, c being the window width that sized buckets/digits", 2)
+    """window recombination (Horner, high to low): between two windows the running total is doubled exactly c times, c
+    being the very window width used to cut the scalars (the `c` handed to make_digits, resp. the step of the window
+    starts).  Form-independent: the doubling loop may sit in a `fold` closure or in a plain nested loop."""
+    from rules.c07 import E, show
+    rule = res.rule("R-WINDOW", "window recombination doubles exactly c times between windows, c being the window width that cut the scalars", 2)
     for fn in facts.fns(unit="ws", crate="ark_ec"):
         if fn.name not in ("msm_bigint", "msm_bigint_wnaf") or fn.default_of or fn.impl or fn.kind == "Closure":
             continue
         key = "ark_ec|%s" % fn.id[-100:]
-        folds = [(bb, t) for bb, t in fn.calls() if t["f"].get("name") == "fold"]
-        found = False
-        for bb, t in folds:
-            for cid in closure_args(fn, t):
-                clo = facts.get(cid, fn.unit)
-                if clo is None:
-                    continue
-                dbl = [b for b, c in clo.calls() if c["f"].get("name") in ("double_in_place", "double")]
+        # the window width: argument of make_digits / step_by of the window starts (possibly inside closures)
+        widths = []
+        hosts = [fn] + facts.closures_of(fn)
+        envs = {}
+        for bi, si, s_ in fn.stmts():
+            r = s_.get("r")
+            if r and r.get("k") == "agg" and r.get("closure"):
+                envs[r["closure"]] = [E(fn, o) for o in r["ops"]]
+
+        def lift(h, t_):
+            """express a closure-side term in the parent's terms"""
+            if h is fn:
+                return t_
+            ops = envs.get(h.id)
+            if ops is None:
+                return t_
+
+            def sub(x):
+                if not isinstance(x, tuple) or not x:
+                    return x
+                if x[0] == "arg" and x[1] == 1 and x[2] and isinstance(x[2][0], str) and x[2][0].isdigit() and int(x[2][0]) < len(ops):
+                    base = ops[int(x[2][0])]
+                    return base if len(x[2]) == 1 else ("proj", base, x[2][1:])
+                return tuple(sub(y) for y in x)
+            return sub(t_)
+        for h in hosts:
+            for bb, t in h.calls():
+                n = t["f"].get("name")
+                if n == "make_digits" and len(t["args"]) >= 2:
+                    widths.append(lift(h, E(h, t["args"][1])))
+                if n == "step_by" and len(t["args"]) == 2:
+                    widths.append(lift(h, E(h, t["args"][1])))
+        widths = [w for w in widths if w is not None]
+        if not widths:
+            rule.bad(key, "window width not found (no make_digits / step_by over the scalar bits)", fn.loc)
+            continue
+        # doubling loops: an SCC containing a double call and the `next` of a Range 0..T
+        trips = []
+        for h in hosts:
+            for scc in DF.sccs(h):
+                dbl = [bb for bb, t in h.calls() if bb in scc and t["f"].get("name") in ("double_in_place", "double")]
                 if not dbl:
                     continue
-                found = True
-                # the doubling must sit on a loop whose range bound is an upvar named c (usize) -- check: the closure
-                # captures exactly one usize upvar and a Range is built from it
-                ups = clo.d.get("upvars", [])
-                usz = [i for i, u in enumerate(ups) if u["ty"] == "usize"]
-                on_cycle = all(b in clo.reachable_from(s) for b in dbl for s in clo.succ()[b][:1])
-                # which parent local is captured?
-                cap = None
-                for bi, si, s in fn.stmts():
-                    r = s.get("r")
-                    if r and r.get("k") == "agg" and r.get("closure") == cid:
-                        for i in usz:
-                            cap = serorigin(fn, r["ops"][i])
-                # c must also feed the bucket allocation / digit extraction in the same function
-                if len(usz) != 1 or not on_cycle or cap is None:
-                    rule.bad(key, "recombination closure does not double in a loop bounded by a single captured window width", fn.loc)
-                else:
-                    dep = DF.Dep(fn)
-                    # other uses of c: Shl (1 << c) somewhere in fn or its closures
-                    shl = False
-                    for f2 in [fn] + facts.closures_of(fn):
-                        for bi, si, s in f2.stmts():
-                            r = s.get("r")
-                            if r and r["k"] == "bin" and r["op"] in ("Shl", "ShlUnchecked"):
-                                shl = True
-                    if shl:
-                        rule.ok(key, "doubling loop bounded by captured c (local %s); buckets sized by 1 << c" % cap, fn.loc)
-                    else:
-                        rule.bad(key, "bucket sizing by 1 << c not found", fn.loc)
-        if not found:
-            rule.bad(key, "no high-to-low fold with doublings between windows found", fn.loc)
+                for bb, t in h.calls():
+                    if bb in scc and t["f"].get("name") == "next":
+                        r = E(h, t["args"][0])
+                        if isinstance(r, tuple) and r[0] == "agg" and r[1] == "Range" and r[2][0] == 0:
+                            # innermost loop only: the range whose SCC is the smallest containing the doubling
+                            trips.append((len(scc), lift(h, r[2][1]), h))
+        if not trips:
+            rule.bad(key, "no loop that doubles the running total between windows", fn.loc)
+            continue
+        trips.sort(key=lambda x: x[0])
+        n_min = trips[0][0]
+        inner = [tr for tr in trips if tr[0] == n_min]
+        T = inner[0][1]
+        if T in widths and all(w == widths[0] for w in widths):
+            # an accumulation of the window sum next to the doubling loop
+            h = inner[0][2]
+            acc = any(t["f"].get("name") in ("add_assign", "add") for _, t in h.calls())
+            (rule.ok if acc else rule.bad)(key, "total doubled %s times between windows, the width that cut the scalars" % show(T)[:60] if acc else "no accumulation of the window sums next to the doubling loop", fn.loc)
+        else:
+            rule.bad(key, "the running total is doubled %s times between windows but the scalars are cut into windows of width %s: the window sums are combined with the wrong weights" % (show(T)[:80], [show(w)[:60] for w in widths]), fn.loc)
 
 
 def serorigin(fn, operand):
